@@ -1570,6 +1570,15 @@ impl Gen {
         let other = self.rng.pick(&[0u32, 8, 16, r + 8, r.saturating_sub(8), r + 1]);
         self.res_ov = Some(if other == r { r + 8 } else { other });
       }
+      0 if c.offset >= c.reserved as u64 + 8 && self.rng.chance(35) => {
+        // an arena at a mapping offset whose identification is corrupted, behind a DECOY: the bytes in front of the
+        // offset hold a perfectly valid identification where an arena mapped from byte 0 would have it. Every open at
+        // the offset must still be refused (an open that forgets the offset finds the decoy and lets the file through)
+        for k in 1..=7u64 {
+          self.emit(format!("mutate_file {} {}", c.reserved as u64 + k, ident[k as usize - 1]));
+        }
+        self.emit(format!("mutate_file {} {}", reserved + 2, ident[1] ^ 0x20));
+      }
       0 => {
         let k = self.rng.range(1, 7);
         let rnd = self.rng.below(256);
